@@ -51,12 +51,30 @@ def run(ctx: Ctx, rs: RuleSet, tier: str):
              'earlier section (or earlier in the same one)', 3)
   # converter closure: which name tables can a converted value mention?
   ref_tables: Set[str] = set()
-  for c in ctx.calls(ff):
-    if unparse(c.func).endswith('partial') and c.args and p.resolve(
-        c.args[0], ff) == f'{CD}._convert_reference':
-      for k in c.keywords:
-        if isinstance(k.value, ast.Name) and k.arg != 'param_name':
-          ref_tables.add(k.value.id)
+
+  def closure_tables(fn, rename):
+    for c in ctx.calls(fn):
+      if unparse(c.func).endswith('partial') and c.args and p.resolve(
+          c.args[0], fn) == f'{CD}._convert_reference':
+        for k in c.keywords:
+          if isinstance(k.value, ast.Name) and k.arg != 'param_name':
+            nm = rename(k.value.id)
+            if nm:
+              ref_tables.add(nm)
+
+  closure_tables(ff, lambda x: x)
+  if len(ref_tables) < 2:
+    # the converter may be put together by a private helper that receives the
+    # name tables as arguments
+    for c2 in ctx.calls(ff):
+      h = p.funcs.get(p.resolve(c2.func, ff) or '')
+      if h is None or h.is_lambda or h.module is not ff.module or h is ff:
+        continue
+      b = ctx.bound_args(c2, ff)
+      if not b:
+        continue
+      closure_tables(h, lambda x, b=b: b[x].id if isinstance(
+          b.get(x), ast.Name) else None)
   if len(ref_tables) < 2:
     raise AnalysisError('Reference converter closure not understood')
   # the statement list of the fiddler: the local that the section helpers'
